@@ -233,20 +233,25 @@ package vm
 // ---- frame entry points as seen by the state transition (assumed here; see C07) -------------
 // A call or creation frame never returns more gas than it was given; its effects on the world
 // are arbitrary changes of the ghost state.
+// Ghost vm_failed: the most recent top-level call or creation ended with an error (ghost
+// instrumentation used by the state transition's 'failed' flag, C06).
+//@ ghost vm_failed Bool
 //@ func EVM.Call
+//@   axiom vm_failed == (err != nil)
 //@   requires[C07] evm != nil && evm.interpreter != nil && evm.StateDB != nil
 //@   ensures[C06,C07] @gas leftOverGas <= gas
 //@   ensures[C07] @revert err != nil && runs > old(runs) ==> reverted_to == old(snapctr)
 //@   ensures[C07] @depth !old(evm.vmConfig.NoRecursion && evm.depth > 0) && old(evm.depth) > 1024 ==> err == ErrDepth && runs == old(runs) && leftOverGas == gas
-//@   assigns bal, nonces, refundctr, supply, snapctr, reverted_to, ro_at_run, runs
+//@   assigns bal, nonces, refundctr, supply, snapctr, reverted_to, ro_at_run, runs, vm_failed
 //@   noframe
 
 //@ func EVM.Create
+//@   axiom vm_failed == (err != nil)
 //@   requires[C07] evm != nil && evm.interpreter != nil && evm.StateDB != nil && evm.chainConfig != nil
 //@   axiom leftOverGas <= gas
 //@   ensures[C07] @revert err != nil && err != ErrCodeStoreOutOfGas && runs > old(runs) ==> reverted_to == old(snapctr)
 //@   ensures[C07] @depth old(evm.depth) > 1024 ==> err == ErrDepth && runs == old(runs) && leftOverGas == gas && nonces == old(nonces)
-//@   assigns bal, nonces, refundctr, supply, snapctr, reverted_to, ro_at_run, runs
+//@   assigns bal, nonces, refundctr, supply, snapctr, reverted_to, ro_at_run, runs, vm_failed
 //@   noframe
 
 // The other call kinds: same revert-on-error, depth limit and gas bound.
